@@ -1,19 +1,34 @@
 (* C05 - bundle R (queueTargetAsync's phases, C05_Defs.InvR) is inductive.
-   Stability lemmas first (they are reused): X is stable, a used asy slot stays used, a target at or above Active
-   stays there.  Then the step theorem, slot by slot. *)
+   Stability lemmas first (they are reused): X is stable (X_stable), a used asy slot stays used (asy_some_stable), a
+   target at or above Active stays there (rank2_stable).  Then InvR slot by slot (Ra) and the step theorem. *)
 From PlzV Require Import Base.Harness Model.Sched Proof.Sched_Base Proof.Sched_Inv Proof.Sched_Deps Proof.C04 Proof.Sched_Measure Proof.C05 Proof.C05_Defs.
 From Coq Require Import Lia Arith.
+
+(* field projections through the setters, without unfolding anything else *)
+Ltac sproj := cbn [ts fin ex pk asy initq ptasks parsers semi sendq actq taken building finishing completing numPending
+  numActive initdone closed exited failed stopreq cycreported trace nfwd
+  set_ts set_fin set_ex set_pk set_asy set_initq set_ptasks set_parsers set_semi set_sendq set_actq set_taken set_building
+  set_finishing set_completing set_numPending set_numActive set_initdone set_closed set_exited set_failed set_stopreq
+  set_cycreported set_trace set_nfwd add_pending_parse].
+
+Ltac grind_with rw :=
+  repeat (first [ progress rw | progress sproj
+                | match goal with |- context [match ?x with _ => _ end] => destruct x eqn:? end
+                | match goal with |- context [if ?x then _ else _] => destruct x eqn:? end ]).
 
 (* ---- (S1) X is stable ---- *)
 Lemma ex_mono : forall g s l d, ex s d = true -> ex (apply g s l) d = true.
 Proof.
-  intros g s l d H. destruct l; cbn [apply]; grind_apply; auto.
-Show.
+  intros g s l d H. destruct l; cbn [apply];
+    grind_with ltac:(rewrite ?ex_task_done, ?ex_log_fail, ?ex_async_error, ?ex_qr); auto;
+    unfold upd; destruct (Nat.eqb d t); auto.
 Qed.
 
 Lemma pk_mono : forall g s l p, pk s p <> PNone -> pk (apply g s l) p <> PNone.
 Proof.
-  intros g s l p H. destruct l; cbn [apply]; grind_apply; try discriminate; auto.
+  intros g s l p H. destruct l; cbn [apply];
+    grind_with ltac:(rewrite ?pk_task_done, ?pk_log_fail, ?pk_async_error, ?pk_qr); auto;
+    unfold upd; destruct (Nat.eqb _ _); try discriminate; auto.
 Qed.
 
 (* a queued parse task stays queued until it activates its target or claims its package *)
@@ -23,18 +38,20 @@ Proof.
   intros g s l d Hin He.
   pose proof (ex_mono g s l d) as Hex. pose proof (pk_mono g s l (g_pkg g d)) as Hpk.
   destruct l; unfold enabled in He; cbv beta iota in He; btrue;
-    try (left; cbn [apply]; grind_apply; auto; fail).
+    try (left; cbn [apply];
+         grind_with ltac:(rewrite ?ptasks_task_done, ?ptasks_log_fail, ?ptasks_async_error, ?ptasks_qr);
+         auto; right; assumption).
   - (* LParseActivate *)
     destruct (Nat.eq_dec d l) as [->|Hne].
     + right. match goal with H : (_ || _) = true |- _ => apply orb_prop in H; destruct H as [H|H] end; btrue.
       * left. apply Hex. assumption.
       * right. apply Hpk. destruct (pk s (g_pkg g l)); cbn in *; discriminate.
-    + left. cbn [apply]. autorewrite with proj. cbn. destruct (ex s l); autorewrite with proj; cbn;
+    + left. cbn [apply]. rewrite ptasks_task_done. sproj. destruct (ex s l); rewrite ?ptasks_qr, ?ptasks_log_fail; sproj;
         apply In_remove1_other; assumption.
   - (* LParseClaim *)
     destruct (Nat.eq_dec d l) as [->|Hne].
-    + right. right. cbn. rewrite upd_same. discriminate.
-    + left. cbn. apply In_remove1_other; assumption.
+    + right. right. cbn [apply]. sproj. rewrite upd_same. discriminate.
+    + left. cbn [apply]. sproj. apply In_remove1_other; assumption.
 Qed.
 
 Theorem X_stable : forall g s l d, X g s d -> enabled g s l = true -> X g (apply g s l) d.
@@ -52,10 +69,10 @@ Proof. intros g s x d H. rewrite asy_qr. destruct (_ && _); [discriminate | exac
 Lemma asy_some_mono : forall g s l d, asy s d <> ANone -> asy (apply g s l) d <> ANone.
 Proof.
   intros g s l d H. destruct l; cbn [apply];
-    repeat (first [ progress autorewrite with proj | apply asy_qr_some | progress cbn [asy set_asy]
+    repeat (first [ progress rewrite ?asy_task_done, ?asy_log_fail, ?asy_async_error | apply asy_qr_some | progress sproj
                   | match goal with |- context [match ?x with _ => _ end] => destruct x eqn:? end
                   | match goal with |- context [if ?x then _ else _] => destruct x eqn:? end ]);
-    try (unfold upd; match goal with |- context [if ?x then _ else _] => destruct x end); try discriminate; auto.
+    try (unfold upd; match goal with |- context [if ?x then _ else _] => destruct x end); try discriminate; try apply asy_qr_some; auto.
 Qed.
 
 Theorem asy_some_stable : forall g s l d, asy s d <> ANone -> enabled g s l = true -> asy (apply g s l) d <> ANone.
@@ -66,9 +83,143 @@ Theorem rank2_stable : forall g s l d, (forall t, J s t) -> (2 <= rank (ts s d))
   (2 <= rank (ts (apply g s l) d))%N.
 Proof.
   intros g s l d HJ Hr He.
-  destruct (HJ d) as ((_ & HA) & _). destruct (J_step g s l HJ He d) as ((HA' & _) & _).
+  destruct (HJ d) as (HA & _). destruct (J_step g s l HJ He d) as (HA' & _).
   assert (Hs : asy s d <> ANone) by (intros E; apply HA in E; lia).
   apply (asy_some_stable g s l d) in Hs; [|exact He].
   destruct (N.lt_ge_cases (rank (ts (apply g s l) d)) 2) as [Hlt|Hge]; [|exact Hge].
   apply HA' in Hlt. contradiction.
 Qed.
+
+(* ---- InvR, slot by slot ---- *)
+Definition Ra (g : graph) (s : state) (t : nat) (a : astate) : Prop :=
+  match a with
+  | AQueue todo => forall d, In d (g_deps g t) -> In d todo \/ X g s d
+  | AResolve todo err =>
+      (forall d, In d (g_deps g t) -> X g s d) /\
+      (err = true \/ forall d, In d (g_deps g t) -> In d todo \/ (2 <= rank (ts s d))%N) /\
+      (err = true -> exists d, In d (g_deps g t) /\ g_decl g d = false)
+  | AWait _ => forall d, In d (g_deps g t) -> (2 <= rank (ts s d))%N
+  | _ => True
+  end.
+
+Lemma InvR_Ra : forall g s, InvR g s <-> forall t, Ra g s t (asy s t).
+Proof.
+  intros g s. split.
+  - intros [H1 H2 H3] t. destruct (asy s t) eqn:E; cbn; eauto.
+  - intros H. split; intros t; intros; specialize (H t);
+      match goal with E : asy s t = _ |- _ => rewrite E in H end; cbn in H; auto.
+Qed.
+
+Lemma InvR_init : forall g, InvR g (init g).
+Proof. intros g. apply InvR_Ra. intros t. exact I. Qed.
+
+Lemma Ra_weak : forall g s s' t a,
+  (forall d, X g s d -> X g s' d) -> (forall d, (2 <= rank (ts s d))%N -> (2 <= rank (ts s' d))%N) ->
+  Ra g s t a -> Ra g s' t a.
+Proof.
+  intros g s s' t a HX Hrk. destruct a; cbn; auto.
+  - intros H d Hd. destruct (H d Hd); auto.
+  - intros (H1 & H2 & H3). split; [auto | split; [|exact H3]].
+    destruct H2 as [H2|H2]; [left; exact H2 | right]. intros d Hd. destruct (H2 d Hd); auto.
+Qed.
+
+(* a slot the step leaves alone, or one that queue_resolved has just started *)
+Lemma Ra_frame : forall g s s' x,
+  (forall d, X g s d -> X g s' d) -> (forall d, (2 <= rank (ts s d))%N -> (2 <= rank (ts s' d))%N) ->
+  Ra g s x (asy s x) ->
+  asy s' x = asy s x \/ asy s' x = AQueue (g_deps g x) ->
+  Ra g s' x (asy s' x).
+Proof.
+  intros g s s' x HX Hrk HR [E|E]; rewrite E.
+  - apply (Ra_weak g s); assumption.
+  - cbn. auto.
+Qed.
+
+(* asy of the successor at a slot the label does not own *)
+Ltac asyfr :=
+  rewrite ?asy_task_done, ?asy_log_fail, ?asy_async_error; sproj;
+  rewrite ?upd_other by assumption;
+  rewrite ?asy_task_done, ?asy_log_fail, ?asy_async_error, ?asy_qr;
+  try match goal with |- context [if ?b then _ else _] =>
+        let E := fresh "E" in destruct b eqn:E;
+        [apply andb_prop in E; destruct E as [_ E]; apply Nat.eqb_eq in E; subst; right; reflexivity|] end;
+  try (left; reflexivity).
+
+Theorem InvR_step : forall g s l, wf g -> (forall t, J s t) -> InvP g s -> InvR g s -> enabled g s l = true -> InvR g (apply g s l).
+Proof.
+  intros g s l Hwf HJ HP HR He.
+  assert (HX : forall d, X g s d -> X g (apply g s l) d) by (intros; apply X_stable; assumption).
+  assert (Hrk : forall d, (2 <= rank (ts s d))%N -> (2 <= rank (ts (apply g s l) d))%N) by (intros; apply rank2_stable; assumption).
+  apply InvR_Ra. intros x. pose proof (proj1 (InvR_Ra g s) HR) as HRa. pose proof (HRa x) as HRx.
+  revert HX Hrk.
+  destruct l; unfold enabled in He; cbv beta iota in He; cbn [apply]; btrue.
+  - intros HX Hrk. apply (Ra_frame g s); auto; destruct (initq s); asyfr.
+  - intros HX Hrk. apply (Ra_frame g s); auto; asyfr.
+  - intros HX Hrk. apply (Ra_frame g s); auto; asyfr; destruct (ex s l); asyfr.
+  - intros HX Hrk. apply (Ra_frame g s); auto; asyfr.
+  - intros HX Hrk. apply (Ra_frame g s); auto; destruct (Nat.eqb t l); asyfr.
+  - intros HX Hrk. apply (Ra_frame g s); auto; asyfr; destruct (ex s l); asyfr.
+  - intros HX Hrk. apply (Ra_frame g s); auto; asyfr.
+  - intros HX Hrk. apply (Ra_frame g s); auto; destruct (cas cas_noneed (ts s t)); asyfr.
+  - intros HX Hrk. apply (Ra_frame g s); auto; asyfr.
+  - (* LAsyncQueueDep *)
+    pose proof (HRa t) as HRt. dasy s t Ea. dlist todo. cbn [Ra] in HRt. revert HX Hrk.
+    destruct (ex s d) eqn:Eex; [|destruct (pst_eqb (pk s (g_pkg g d)) PParsed) eqn:Epk]; intros HX Hrk;
+      (destruct (Nat.eq_dec x t) as [->|Hne]; [sproj; rewrite upd_same; cbn [Ra]; sproj | apply (Ra_frame g s); auto; asyfr]).
+    + intros d' Hd'. destruct (HRt d' Hd') as [[<-|Hin]|HXd];
+        [right; apply HX; left; exact Eex | left; exact Hin | right; apply HX; exact HXd].
+    + exact I.
+    + intros d' Hd'. destruct (HRt d' Hd') as [[<-|Hin]|HXd];
+        [right; unfold X; right; right; sproj; left; reflexivity | left; exact Hin | right; apply HX; exact HXd].
+  - (* LAsyncBeginResolve *)
+    pose proof (HRa t) as HRt. dasy s t Ea. dlist todo. cbn [Ra] in HRt.
+    destruct (Nat.eq_dec x t) as [->|Hne]; [sproj; rewrite upd_same; cbn [Ra]; sproj | apply (Ra_frame g s); auto; asyfr].
+    split; [|split; [right; intros; left; assumption | discriminate]].
+    intros d' Hd'. destruct (HRt d' Hd') as [[]|HXd]. apply HX. exact HXd.
+  - (* LAsyncResolveDep *)
+    pose proof (HRa t) as HRt. dasy s t Ea. btrue. cbn [Ra] in HRt. destruct HRt as (R1 & R2 & R3). revert HX Hrk.
+    destruct (ex s d) eqn:Eex; intros HX Hrk;
+      (destruct (Nat.eq_dec x t) as [->|Hne]; [sproj; rewrite upd_same; cbn [Ra]; sproj | apply (Ra_frame g s); auto; asyfr]).
+    + split; [intros d' Hd'; apply HX, R1, Hd' | split; [|exact R3]].
+      destruct R2 as [R2|R2]; [left; exact R2 | right]. intros d' Hd'. destruct (Nat.eq_dec d' d) as [->|Hned].
+      * right. rewrite ts_qr, Nat.eqb_refl, andb_true_r. unfold qr_ok. destruct (N.ltb_spec (rank (ts s d)) 2); cbn; lia.
+      * destruct (R2 d' Hd') as [Hin|Hr]; [left; apply In_remove1_other; assumption | right; apply Hrk; exact Hr].
+    + split; [intros d' Hd'; apply HX, R1, Hd' | split; [left; reflexivity | intros _]].
+      assert (Hd : In d (g_deps g t)) by (apply (p_todor g s HP t todo err Ea), mem_In; assumption).
+      exists d. split; [exact Hd|]. destruct (g_decl g d) eqn:Edecl; [exfalso | reflexivity].
+      assert (Hpk : pk s (g_pkg g d) = PParsed).
+      { match goal with H : (_ || _) = true |- _ => cbn in H; destruct (pk s (g_pkg g d)); cbn in H; try discriminate H; reflexivity end. }
+      destruct (p_parsed g s HP _ Hpk) as [_ Hall]. destruct Hwf as (Hw & _).
+      rewrite (Hall d (Hw t d Hd) Edecl eq_refl) in Eex. discriminate.
+  - (* LAsyncBeginWait *)
+    pose proof (HRa t) as HRt. dasy s t Ea. dlist todo. cbn [Ra] in HRt. destruct HRt as (R1 & R2 & R3). revert HX Hrk.
+    destruct err; intros HX Hrk;
+      (destruct (Nat.eq_dec x t) as [->|Hne]; [sproj; rewrite upd_same; cbn [Ra]; sproj | apply (Ra_frame g s); auto; asyfr]).
+    + exact I.
+    + destruct R2 as [R2|R2]; [discriminate|]. intros d' Hd'. destruct (R2 d' Hd') as [[]|Hr]. apply Hrk, Hr.
+  - (* LWaitDep *)
+    pose proof (HRa t) as HRt. dasy s t Ea. dlist todo. cbn [Ra] in HRt.
+    destruct (Nat.eq_dec x t) as [->|Hne]; [sproj; rewrite upd_same; cbn [Ra]; sproj | apply (Ra_frame g s); auto; asyfr].
+    intros d' Hd'. apply Hrk, HRt, Hd'.
+  - (* LDepFailed *)
+    intros HX Hrk. destruct (Nat.eq_dec x t) as [->|Hne]; [sproj; rewrite upd_same; exact I | apply (Ra_frame g s); auto; asyfr].
+  - (* LActivatePending *)
+    intros HX Hrk. destruct (Nat.eq_dec x t) as [->|Hne];
+      [sproj; rewrite upd_same; exact I | apply (Ra_frame g s); auto; destruct (cas [cas_pending] (ts s t)); asyfr].
+  - (* LAsyncDone *)
+    intros HX Hrk. destruct (Nat.eq_dec x t) as [->|Hne];
+      [rewrite asy_task_done; sproj; rewrite upd_same; exact I | apply (Ra_frame g s); auto; asyfr].
+  - intros HX Hrk. apply (Ra_frame g s); auto; sproj; destruct (closed s); asyfr.
+  - intros HX Hrk. apply (Ra_frame g s); auto; asyfr.
+  - intros HX Hrk. apply (Ra_frame g s); auto; asyfr.
+  - intros HX Hrk. apply (Ra_frame g s); auto; asyfr.
+  - intros HX Hrk. apply (Ra_frame g s); auto; asyfr.
+  - intros HX Hrk. apply (Ra_frame g s); auto; asyfr.
+  - intros HX Hrk. apply (Ra_frame g s); auto; asyfr.
+  - intros HX Hrk. apply (Ra_frame g s); auto; asyfr.
+  - intros HX Hrk. apply (Ra_frame g s); auto; asyfr.
+  - intros HX Hrk. apply (Ra_frame g s); auto; asyfr.
+  - intros HX Hrk. apply (Ra_frame g s); auto; asyfr.
+Qed.
+
+Print Assumptions InvR_step.
